@@ -5,7 +5,7 @@ CONFIG = {
         "name": "stateproof", "pkg": "./crypto/stateproof/", "run": "^TestVerifC39$",
         "files": ["crypto/stateproof/zz_verif_c39_test.go"],
         "util": [("crypto/stateproof", "stateproof")],
-        "env": {"quick": {"VERIF_C39_N": 60, "VERIF_C39_POOL": 20}, "thorough": {"VERIF_C39_N": 1500, "VERIF_C39_POOL": 24}},
+        "env": {"quick": {"VERIF_C39_N": 60, "VERIF_C39_POOL": 20}, "thorough": {"VERIF_C39_N": 1200, "VERIF_C39_POOL": 24}},
         "timeout": {"quick": 900, "thorough": 3000},
     }, {
         "name": "validate", "pkg": "./stateproof/verify/", "run": "^TestVerifC39Validate$",
